@@ -261,17 +261,24 @@ class List(list, base.Symbolic, pg_typing.CustomTyping):
           self._error_message(
               f'List is already bound with a different value '
               f'spec: {self._value_spec}. New value spec: {value_spec}.'))
+    # NOTE: the spec is applied in place; when it refuses the content, the
+    # value is put back as it was (not left bound to a spec it violates).
+    before = base.typing_state(self)
     self._allow_partial = allow_partial
 
     if flags.is_type_check_enabled():
       # NOTE(daiyip): self._value_spec will be set in List.custom_apply method
       # called by spec.apply, thus we don't need to set the _value_spec
       # explicitly.
-      value_spec.apply(
-          self,
-          allow_partial=base.accepts_partial(self),
-          child_transform=base.symbolic_transform_fn(self._allow_partial),
-          root_path=self.sym_path)
+      try:
+        value_spec.apply(
+            self,
+            allow_partial=base.accepts_partial(self),
+            child_transform=base.symbolic_transform_fn(self._allow_partial),
+            root_path=self.sym_path)
+      except BaseException:
+        base.restore_typing_state(before)
+        raise
       if self._value_spec is None:
         # NOTE: `custom_apply` does not bind a spec that has a user transform
         # (its transform-free twin validates the transformed value).
